@@ -4,7 +4,9 @@ Monitor shape: identities evaluated on *returned* values (no coefficient is read
 inverse pairs, single-potential identities by central differences, monotonicity,
 positivity, jumps across region boundaries (IF97 consistency tolerances),
 Clausius-Clapeyron across saturation, region classifier against an own
-transcription of the region definition.
+transcription of the region definition; every answer compared with that of a
+pristine copy of the module after call sequences whose reduced variables collide
+(history independence, seed C14-20).
 """
 import math
 
